@@ -18,7 +18,7 @@ from vplib import *
 
 PROP = "C04"
 
-WORDS = ["foo", "bar", "ab", "abc", "a", "b", "c", "needle", "x", "ba", "oo", "foo3", "1", "22", "a1", "b2", " ", "\n", "fo", "ob", "a\nb", "xa\nb"]
+WORDS = ["foo", "bar", "ab", "abc", "a", "b", "c", "needle", "x", "ba", "oo", "foo3", "1", "22", "a1", "b2", " ", "\n", "fo", "ob", "a\nb", "xa\nb", "000", ";;;", "aaa", "bbb", "ooo", "0", ";", "abab"]
 # (regex, tags)  -- shapes chosen after the code paths of progressVariant.find
 REGEX_SAMPLES = {
     "foo": ["foo"], "bar": ["bar"], "ab": ["ab"], "a": ["a"], "b": ["b"], "abc": ["abc"], "needle": ["needle"], "ne*dle": ["ndle", "neeedle"],
@@ -30,6 +30,9 @@ REGEX_SAMPLES = {
     "[^a]b": ["xb", "bb"], "foo|bar": ["foo", "bar"], "ab|abc": ["abc"], "abc|ab": ["abc", "ab"], "(?:a|ab)(?:c|bcd)": ["abcd", "ac"],
     "(?s)a.b": ["a\nb"], "\\d+": ["123"], "\\w+ ": ["word "], "ba?r": ["br", "bar"], "[a-c]+[0-9]": ["abc1", "c9"], "o{2}": ["oo"], "a{2,3}": ["aa", "aaa"],
     "(?:ab){2}": ["abab"], "": [""], "(?:)": [""], "x*": ["xx", ""], "[a-z]+[0-9][a-z]": ["ab1c"], "..": ["zz"], ".": ["z"], "(?:a|b)(?:a|b)b": ["abb", "bab"],
+    # fixed length, no prefix, constant suffix that overlaps itself: the window loop has to move on by one byte
+    "[0-9a-f]00": ["x000", "a00", "0000"], "[^0-9];;": ["1;;;", "a;;", ";;;;"], ".aa": ["baaa", "aaaa"], "[ab]bb": ["cbbb", "abbb"],
+    "..oo": ["xoooo", "foooo"], "[^a]abab": ["aababab", "xabab"], ".{2};;": ["1;;;;", ";;;"],
     "a[a-c]?b": ["ab", "acb"], "ab?": ["a", "ab"], "fo*3": ["f3", "foo3"], "[fb]oo": ["boo", "foo"], "(?:fo|f)o3": ["foo3", "fo3"], "oo3|ar": ["oo3", "ar"],
 }
 REGEXES = sorted(REGEX_SAMPLES)
